@@ -96,6 +96,9 @@ def eq(it, a, b):
             return mk_bool(z3.Bool(it.ex.fresh_name("unb_eq")))
         return False
     if is_str(a) and is_str(b):
+        sc = _fmt_eq_shortcut(it, a, b)
+        if sc is not None:
+            return sc
         return mk_bool_v(str_eq_term(a, b))
     if is_num(a) and is_num(b):
         return m_num.num_eq(it, a, b)
@@ -143,6 +146,29 @@ def eq(it, a, b):
         except Exception as e:  # noqa: BLE001
             raise PyRaise(e)
     raise Unsupported(f"== between {ta.__name__} and {tb.__name__}")
+
+
+def _fmt_eq_shortcut(it, a, b):
+    """Two strings that are each exactly the fixed-width digits of one formatted non-negative
+    integer (same base, same width): equal iff the integers are equal (formatting with a
+    fixed width is injective below base**width, which int_to_str established)."""
+    if not (isinstance(a, SStr) and isinstance(b, SStr)) or len(a.chars) != len(b.chars):
+        return None
+    recs = []
+    for s in (a, b):
+        first = next((c for c in s.chars if not isinstance(c, int)), None)
+        if first is None:
+            return None
+        rec = it.ex.fmt_rec.get(first.get_id())
+        if rec is None or rec["neg"] or len(rec["chars"]) != len(s.chars):
+            return None
+        for x, y in zip(rec["chars"], s.chars):
+            if isinstance(x, int) != isinstance(y, int) or (isinstance(x, int) and x != y) or (not isinstance(x, int) and not x.eq(y)):
+                return None
+        recs.append(rec)
+    if recs[0]["base"] != recs[1]["base"]:
+        return None
+    return mk_bool(recs[0]["mag"] == recs[1]["mag"])
 
 
 def mk_bool_v(t):
